@@ -314,7 +314,9 @@ func runC10(c *Ctx) {
 	c10MemoCells(c)
 	c10ExportHelpers(c)
 	c.rule = "programs with state that survives an evaluation (constant lazy lists, constant maps and closures bound before use, recursion, failing elements, partially consumed lists; corpus + C01 generator with a constant list in scope) are generated once and evaluated in a history of up to 50 steps: arguments from a pool of 8, handed over as a sub-slice of a host-owned buffer with spare capacity (which must stay untouched), interleaved with evaluations of two other functions of the same generator, new Generate calls, results dropped, forced, or half consumed (first / top / size via the API) and consumed later; predicate: every outcome equals the isolated first evaluation of the same program and argument on a fresh generator, and the Lean model's reference outcome; non-trivial = distinct (program, history) with >= 3 evaluations over >= 2 different arguments of a program that contains a constant list/closure"
-	c.assume = append(c.assume, "state outside the model: list materialisation caches (C09 shows they are unobservable), package-level variables")
+	c.rule += "; further deterministic families: values the host keeps between evaluations (pooled maps, lists, binnings), a scan of recursion depths across the value-stack limit with a fresh function per depth, memo-cell histories (force / iterate-k operations with 0..60 free value-stack slots on ONE shared *value.List with host-defined and library producers, every outcome compared with the same operation on an untouched list and with the Lean model P2.Memo), the repository's file helpers (export.AddFileHelpers) through histories with results rendered late"
+	c.assume = append(c.assume, "state outside the models: package-level variables (type ids)",
+		"the free-slot needs of the library producers in the memo-cell corpus (iir 1/2, iirCombine 1/3, number and combine with a let 3, map/accept 0) were measured once on the pinned commit; a change of the compiler's slot discipline shows as a broken MEMO correspondence")
 	n := c.Pick(400, 12000)
 	steps := c.Pick(30, 50)
 	progs := genC10Programs(c, n, c.Pick(4, 6))
